@@ -1484,6 +1484,14 @@ def _p_stack(name):
     return h
 
 
+def _p_tile(I, args, kw, node):
+    x, reps = args[0], args[1] if len(args) > 1 else kw.get("reps", NONE)
+    items = _vector_items(x) if x[0] == "app" else (list(x[1]) if x[0] == "tuple" else None)
+    if items is not None and is_num(reps) and 0 <= reps[1] <= 16:
+        return ("app", "array", (("tuple", tuple(items) * int(reps[1])),))
+    return ("app", "np.tile", (x, reps))
+
+
 def _p_reshape(I, args, kw, node):
     dims = list(args[1:])
     if len(dims) == 1 and dims[0][0] == "tuple":
@@ -1523,6 +1531,7 @@ PRIMS = {
     "np.concatenate": _p_stack("hstack"),
     "np.stack": _p_stack("stack"),
     "np.reshape": _p_reshape,
+    "np.tile": _p_tile,
     "random.split": _p_split,
     "random.permutation": _p_permutation,
 }
